@@ -34,6 +34,16 @@ type CrashRec struct {
 	ContinueMax int // how many recovered images per case are used further (more transactions, Close, Open)
 	continued   int
 
+	// immediate continuation: at a few crash points in the middle of a multi-record commit the image is opened AT
+	// ONCE, inside the hook, by a second handle in the same process, which commits one unrelated transaction -
+	// if the machine allows, within the millisecond in which the interrupted transaction began. After a reopen
+	// the interrupted transaction must still be invisible (transaction ids unique across handles).
+	ImmediateMax int
+	Cfg          Cfg
+	U            *Universe
+	immediate    int
+	stepWrites   int
+
 	Torn     bool
 	Power    bool
 	MaxImg   int     // cap on images kept (reservoir over events once exceeded)
@@ -60,6 +70,7 @@ func NewCrashRec(c *CaseCtx, root string) *CrashRec {
 
 func (cr *CrashRec) SetStep(cur int, inflight bool, phase string) {
 	cr.cur, cr.infl = cur, inflight
+	cr.stepWrites = 0
 	cr.Mon.SetTx(cur, phase)
 }
 
@@ -128,6 +139,13 @@ func (cr *CrashRec) onEvent(ev *FSEvent) (bool, int, error) {
 			}
 		}
 		cr.prevDirSync = ev.Op == "syncdir"
+	}
+	if ev.Op == "write" && strings.HasSuffix(ev.Path, ".dat") {
+		cr.stepWrites++
+		if cr.infl && cr.stepWrites >= 2 && cr.immediate < cr.ImmediateMax && cr.U != nil && cr.Cfg.Mode != 2 && cr.cur < len(cr.Models) && cr.Models[cr.cur] != nil && cr.Rng.Intn(3) == 0 {
+			cr.immediate++
+			cr.immediateContinuation(snap, ev)
+		}
 	}
 	keep := cr.KeepProb >= 1 || cr.Rng.Float64() < cr.KeepProb
 	if keep {
@@ -257,6 +275,53 @@ func (cr *CrashRec) PushModel(m *Model, u *Universe) {
 		cr.Models = append(cr.Models, nil)
 	}
 	cr.Models = append(cr.Models, m.Clone())
+}
+
+func (cr *CrashRec) immediateContinuation(snap *Snapshot, ev *FSEvent) {
+	c := cr.C
+	dir := c.Dir(fmt.Sprintf("imm%d", cr.immediate))
+	defer os.RemoveAll(dir)
+	if err := snap.Materialize(dir); err != nil {
+		return
+	}
+	class := "crash-second-handle"
+	u, cfg := cr.U, cr.Cfg
+	m := cr.Models[cr.cur].Clone()
+	k := u.KVKeys[cr.Rng.Intn(len(u.KVKeys))]
+	t := TxSpec{Mode: "update", Ops: []Op{{K: "Put", B: u.Buckets[0], Key: k, Val: []byte(fmt.Sprintf("second-handle-%d", cr.immediate))}}}
+	db, err := openNoPanic(cfg.Options(dir))
+	var out TxOut
+	if err == nil {
+		out = execTx(db, t)
+	}
+	// (the time-critical part is over)
+	c.Stat("immediate_continuations", 1)
+	where := fmt.Sprintf("the image before event #%d %s %s (second record or later of the commit of step %d), opened at once by a second handle (%s)", ev.Seq, ev.Op, ev.Path, cr.cur+1, cfg)
+	if err != nil {
+		c.Violate("open-failed:"+errClass(err.Error()), class, "Open failed on "+where+": "+err.Error())
+		return
+	}
+	if out.Err != nil || out.Panic != "" {
+		db.Close()
+		c.Violate("commit-error", class, fmt.Sprintf("commit failed on %s: %v %s", where, out.Err, out.Panic))
+		return
+	}
+	m.Apply(t.Ops[0], out.Res[0])
+	db.Close()
+	db2, err := openNoPanic(cfg.Options(dir))
+	if err != nil {
+		c.Violate("reopen-failed:"+errClass(err.Error()), class, "second Open failed on "+where+": "+err.Error())
+		return
+	}
+	got, oerr := obsReal(db2, u)
+	db2.Close()
+	if oerr != nil {
+		return
+	}
+	if want := obsModel(m, u); !sameObs(got, want) {
+		c.Violate("obs:after-second-handle-commit:"+firstDiffCall(got, want), class,
+			fmt.Sprintf("%s committed %s; after Close and Open the contents are not the committed prefix plus that transaction (records of the interrupted transaction became visible?):\n%s", where, t.String(), diffObs(got, want)))
+	}
 }
 
 // continueOn uses a recovered image the way an application would after a crash: more write transactions (sized
